@@ -74,6 +74,15 @@ func c05Components(t temporal, isTime bool) []int64 {
 	return all[:n]
 }
 
+// isSecondsComp: component i is the seconds·10⁹+ns component of both values
+func isSecondsComp(a, b cmpVal, i int) bool {
+	last := 5
+	if a.fam == "time" {
+		last = 2
+	}
+	return i == last
+}
+
 // c05Model returns eq and lt as "T" "F" "E", or "" when the statement does not
 // cover the pair.
 func c05Model(a, b cmpVal) (eq, lt string) {
@@ -101,6 +110,13 @@ func c05Model(a, b cmpVal) (eq, lt string) {
 		}
 		for i := 0; i < n; i++ {
 			if a.comp[i] != b.comp[i] {
+				// the finest component of a System value is the millisecond (N1 literals have three
+				// fraction digits); FHIR elements may hold microseconds.  Two values that differ only
+				// below the millisecond are outside the model (the library truncates instants and
+				// dateTimes and keeps the microseconds of times): the relational laws still apply
+				if isSecondsComp(a, b, i) && a.comp[i]/1e6 == b.comp[i]/1e6 {
+					return "", ""
+				}
 				return "F", tf(a.comp[i] < b.comp[i])
 			}
 		}
